@@ -71,6 +71,12 @@ type typedTarget struct {
 	A string       `config:"a"`
 	S *ucfg.Config `config:"s"`
 	O *ucfg.Config `config:"o"`
+	N struct {
+		X string `config:"x"`
+	} `config:"nl"`
+	NP *struct {
+		X string `config:"x"`
+	} `config:"nl"`
 }
 
 // capturing holds the config's own sections by reference after the first Unpack (a nil *Config
@@ -232,7 +238,7 @@ func exec(shared *ucfg.Config, op Op, opts []ucfg.Option) string {
 	case opUnpackTyped:
 		var t typedTarget
 		err := shared.Unpack(&t, opts...)
-		return fmt.Sprintf("%q %s %s %s", t.A, canonCfg(t.S, opts), canonCfg(t.O, opts), errStr(err))
+		return fmt.Sprintf("%q %s %s %q %v %s", t.A, canonCfg(t.S, opts), canonCfg(t.O, opts), t.N.X, t.NP == nil, errStr(err))
 	}
 	return "?"
 }
